@@ -94,6 +94,8 @@ def _simplify(ctx, p, ci):
     n = ctx.n(ci)
     pts = P(ci)
     which = rng.choice(['rdp', 'grdp', 'grdp', 'rdp_fixed', 'mp_grdp', 'min_point_rdp', 'min_point_rdp'])
+    if n > 600:
+        which = rng.choice(['rdp_fixed', 'rdp_fixed', 'rdp'])      # the global variants are quadratic and worse
     cost = E('metrics.Metrics.' + rng.choice(METRICS))
     t = F(rng.choice([0.5, 0.1, 0.05, 0.01, 0.001, 0.001, 0.0]))
     if 'r2' in cost['enum']:
@@ -240,6 +242,8 @@ def primitives(ctx):
     n = ctx.n(ci)
     pts = P(ci)
     x, y = COL(pts, 0), COL(pts, 1)
+    if rng.random() < 0.3:
+        x = {'col': pts, 'c': 0, 'int_in_sim': True}
     idxs = ctx.of_kind('idx', ci)
     knees = P(rng.choice(idxs)) if idxs else None
     others = [c for c in ctx.curves() if ctx.n(c) == n and c != ci]
@@ -263,7 +267,7 @@ def primitives(ctx):
             for fn in rng.sample(['linear_transform_points', 'linear_r2_points', 'rmspe_points', 'rmsle_points', 'smape_points',
                                   'rpd_points', 'rmse_points', 'linear_residuals_points'], rng.randint(1, 4)):
                 p.call('linear_fit.' + fn, seg, coef)
-            xs, ys = COL(seg, 0), COL(seg, 1)
+            xs, ys = ({'col': seg, 'c': 0, 'int_in_sim': True} if rng.random() < 0.3 else COL(seg, 0)), COL(seg, 1)
             for fn in rng.sample(['linear_r2', 'rmspe', 'rmsle', 'smape', 'rpd', 'rmse', 'linear_residuals'], rng.randint(1, 3)):
                 p.call('linear_fit.' + fn, xs, ys, coef)
             if rng.random() < 0.3:
@@ -280,7 +284,7 @@ def primitives(ctx):
             for fn in rng.sample(['linear_hv_residuals_points', 'linear_fit_transform_points', 'linear_fit_residuals_points',
                                   'r2_points'], rng.randint(1, 3)):
                 p.call('linear_fit.' + fn, seg)
-            xs, ys = COL(seg, 0), COL(seg, 1)
+            xs, ys = ({'col': seg, 'c': 0, 'int_in_sim': True} if rng.random() < 0.3 else COL(seg, 0)), COL(seg, 1)
             p.call('linear_fit.' + rng.choice(['linear_hv_residuals', 'linear_fit_transform', 'linear_fit_residuals', 'r2']), xs, ys)
             if rng.random() < 0.4:
                 p.call('linear_fit.linear_fit_transform_points', seg, True)
@@ -395,14 +399,14 @@ def primitives(ctx):
                 p.call('kneedle.knees', rng.choice([seg, pts]), F(rng.choice([0.0, 1.0, 2.0])), F(rng.choice([0.5, 1.0])),
                        E('kneedle.PeakDetection.' + rng.choice(['Kneedle', 'ZScore', 'Significant', 'All'])))
         elif g == 'lmethod' and b - a >= 5:
-            xs, ys = COL(seg, 0), COL(seg, 1)
+            xs, ys = ({'col': seg, 'c': 0, 'int_in_sim': True} if rng.random() < 0.3 else COL(seg, 0)), COL(seg, 1)
             fit = E('lmethod.Fit.' + rng.choice(['best_fit', 'point_fit']))
             cst = E('lmethod.Cost.' + rng.choice(['rss', 'rmse']))
             p.call('lmethod.get_knee', xs, ys, fit, cst)
             p.call('lmethod.compute_error', xs, ys, rng.randint(2, b - a - 2), F(1.0), fit, cst)
             p.call('lmethod.knee', seg, fit, E('lmethod.Refinement.' + rng.choice(['none', 'adjusted', 'adjusted', 'original'])), rng.choice([3, 5, 10]))
         elif g == 'dfdt' and b - a >= 4:
-            xs, ys = COL(seg, 0), COL(seg, 1)
+            xs, ys = ({'col': seg, 'c': 0, 'int_in_sim': True} if rng.random() < 0.3 else COL(seg, 0)), COL(seg, 1)
             p.call('dfdt.get_knee', xs, ys)
             p.call('dfdt.get_knee_gradient', ys)
             p.call('kneedle.differences', seg, E('kneedle.Direction.' + rng.choice(['Increasing', 'Decreasing'])),
